@@ -43,6 +43,10 @@ def Pkt.syn (p : Pkt) : Bool := p.flags.testBit 1
 def Pkt.rst (p : Pkt) : Bool := p.flags.testBit 2
 def Pkt.ackf (p : Pkt) : Bool := p.flags.testBit 4
 
+/-- sequence number of the first payload byte: the SYN flag occupies one sequence number
+    (after `fix: payload of a SYN segment starts one past its sequence number`) -/
+def Pkt.dataSeq (p : Pkt) : Nat := wrap32 (p.seq + (if p.syn then 1 else 0))
+
 /-! ### StreamIdentifier -/
 
 structure Ident where
@@ -114,10 +118,10 @@ def Flow.processPacket (f : Flow) (p : Pkt) : Flow × Option (Nat × Bytes) × B
   match p.payload with
   | none => (f1, none, false)
   | some d =>
-    let chunkEnd := wrap32 (p.seq + d.length)
+    let chunkEnd := wrap32 (p.dataSeq + d.length)
     let cur := f1.tr.seq
-    let ooo := if seqCompare chunkEnd cur < 0 ∨ seqCompare p.seq cur > 0 then some (p.seq, d) else none
-    let r := processPayload f1.tr p.seq d
+    let ooo := if seqCompare chunkEnd cur < 0 ∨ seqCompare p.dataSeq cur > 0 then some (p.dataSeq, d) else none
+    let r := processPayload f1.tr p.dataSeq d
     ({ f1 with tr := r.1 }, ooo, r.2)
 
 /-! ### Stream -/
@@ -144,7 +148,7 @@ def Stream.sid (s : Stream) : Sid :=
 
 /-- `Stream::Stream(packet, ts)` (`extract_client_flow`, `extract_server_flow`) -/
 def Stream.ofPacket (p : Pkt) (acl : Bool) : Stream :=
-  { client := Flow.init p.v6 p.dst p.dport p.seq,
+  { client := Flow.init p.v6 p.dst p.dport p.dataSeq,
     server := Flow.init p.v6 p.src p.sport p.ack,
     createTime := p.ts, lastSeen := p.ts, isPartial := !p.syn, acl := acl }
 
